@@ -312,6 +312,27 @@ where
             Out::Int(i.left.iter().map(|(k, v)| w0(*k, *v)).sum::<i64>() * 2 + 1)
         });
     }
+    for revert in [false, true] {
+        // an accumulator keyed by the map key (a copy of the map), without an update function:
+        // a value change of a surviving key is remove-old followed by add-new, in that order
+        let (l, id) = (log.clone(), ops.len());
+        let l2 = l.clone();
+        let node = input.incr_unordered_fold(
+            B::new(),
+            move |mut acc: B, k: &i64, v: &i64| {
+                l.borrow_mut().push((id, *k, "add"));
+                acc.insert(*k, *v);
+                acc
+            },
+            move |mut acc: B, k: &i64, _v: &i64| {
+                l2.borrow_mut().push((id, *k, "remove"));
+                acc.remove(k);
+                acc
+            },
+            revert,
+        );
+        op(ops, format!("incr_unordered_fold<{n}>(copy of the map, revert={revert})"), OpKind::Fold { update: false }, "C15", node, |x: &B| Out::Map(x.clone()), |i| Out::Map(i.left.clone()));
+    }
     {
         let (l, id) = (log.clone(), ops.len());
         let (l2, l3, l4) = (l.clone(), l.clone(), l.clone());
@@ -518,6 +539,18 @@ fn inner(seed: u64, which: &str, out: &mut Outcome) {
         vb_r.set_cutoff(Cutoff::Never);
         vom_r.set_cutoff(Cutoff::Never);
     }
+    // in some histories other consumers keep some of the inputs necessary throughout, so that an
+    // operator that is observed again finds inputs that are already up to date
+    let mut _keepers: Vec<Box<dyn std::any::Any>> = vec![];
+    if rng.chance(1, 3) {
+        _keepers.push(Box::new(vb_r.observe()));
+        _keepers.push(Box::new(vom_r.observe()));
+    }
+    if rng.chance(1, 4) {
+        _keepers.push(Box::new(vb.observe()));
+        _keepers.push(Box::new(vrc.observe()));
+        _keepers.push(Box::new(vom.observe()));
+    }
     let env = PerKeyEnv { outer: st.var(cur.outer), alt: st.var(cur.alt), shared: st.constant(0), konst: st.constant(5i64) };
     let shared_src = env.outer.map(|o| o / 2 + 7);
     let env = PerKeyEnv { shared: shared_src, ..env };
@@ -600,8 +633,48 @@ fn inner(seed: u64, which: &str, out: &mut Outcome) {
     let mut reobserved_after_change = false;
     let mut removed_key = false;
     let mut changed_survivor = false;
+    // scripted steps: (0, i) unobserve operator i, (1, _) edit the right input only, (2, _) stabilise,
+    // (3, i) observe operator i again
+    let mut plan: std::collections::VecDeque<(u8, usize)> = Default::default();
     for _ in 0..n_actions {
-        match rng.below(14) {
+        let mut code = rng.below(14);
+        if let Some((step, i)) = plan.pop_front() {
+            match step {
+                0 => {
+                    ops[i].reader = None;
+                    out.actions.push(format!("unobserve {}", ops[i].name));
+                    continue;
+                }
+                1 => {
+                    let (k, v) = (rng.range(0, 7), rng.range(0, 4));
+                    if cur.right.get(&k) == Some(&v) {
+                        cur.right.remove(&k);
+                    } else {
+                        cur.right.insert(k, v);
+                    }
+                    out.actions.push(format!("R[{k}]~{v} (only the right input changes)"));
+                    continue;
+                }
+                3 => {
+                    if ops[i].reader.is_none() {
+                        ops[i].reader = Some((ops[i].observe)());
+                        reobserved_after_change = true;
+                        out.actions.push(format!("observe {}", ops[i].name));
+                    }
+                    continue;
+                }
+                _ => code = 13,
+            }
+        } else if code == 5 && rng.chance(1, 2) {
+            // a two-input operator is unobserved while only its second input changes
+            let merges: Vec<usize> = active.iter().copied().filter(|i| matches!(ops[*i].kind, OpKind::Merge) && ops[*i].reader.is_some()).collect();
+            if !merges.is_empty() && vb.get() == cur.left {
+                let i = *rng.pick(&merges);
+                plan.extend([(2u8, 0usize), (0, i), (1, 0), (2, 0), (3, i), (2, 0)]);
+                continue;
+            }
+        }
+        match code {
             0 | 1 | 2 => {
                 let (k, v) = (rng.range(0, 7), rng.range(0, 4));
                 if cur.left.contains_key(&k) {
